@@ -49,6 +49,14 @@ CLAIMED = {
             "for <= 4/5 packs with UNBOUNDED positive revision counts against an arbitrary valid distribution; L3: the real "
             "_do_autopack over stub packs. L1 and L2 together give the property for every collection within those bounds.",
             "total = sum of per-pack counts (CombinedGraphIndex.key_count); plan execution (packer, I/O) outside"),
+    "C12": ("'remove' never deletes uncommitted work without --force (kernel)",
+            "The real InventoryWorkingTree.remove over a table of files with SYMBOLIC names, each unchanged / modified / "
+            "newly added / unknown / versioned-but-missing, with keep or delete and with / without force: keeping touches "
+            "nothing on disk; deleting without force moves every unknown, newly added or modified file to a backup name "
+            "instead of deleting it and deletes only unchanged versioned files; force deletes; versioned files (and only "
+            "they) are unversioned. Directories, revert (_alter_files) and merge helpers are outside.",
+            "tree queries and osutils file operations are stubs over the table; is_inside_any is a validated model; the "
+            "compiled InventoryDelta class is replaced by a list"),
     "C13": ("rename journal, rollback and the apply phases (single failure)",
             "The real InventoryTreeTransform.apply / _apply_removals / _apply_insertions and the real _FileMover over an "
             "abstract flat file system with ONE failure injected at a SYMBOLIC operation index (symbolic errno): a failure in "
@@ -247,7 +255,6 @@ NOT_APPLICABLE = {
     "C09": "dirstate (Rust) / git index (dulwich) mutations over a real file system; operation sequences are structure to enumerate (model-based testing target, not a solver target)",
     "C10": "the fast paths under comparison are compiled (dirstate ProcessEntry, CHK differ); inputs are tree shapes",
     "C11": "a directory walk over a real file system combined with the ignore matcher; the matcher itself is decided under C48",
-    "C12": "outcomes are file-system contents after revert/merge/remove through TreeTransform and dirstate; no symbolic-input kernel",
     "C14": "compares a preview tree with a real applied working tree (inventory + file system); inputs are operation sequences",
     "C15": "composition of TreeTransform, merge and shelf serialisation (pack container + bencode, compiled) on a real working tree",
     "C19": "the decision goes through merge3.Merge3 with patiencediff.PatienceSequenceMatcher (compiled, hashes lines), so file lines cannot be symbolic",
